@@ -28,12 +28,16 @@ THRESHOLDS = {"quick": {"c20:plots": 1200, "c20:kind:LatticeMaze": 200, "c20:kin
                         "c20:with-values": 300, "c20:without-values": 300, "c20:strips-checked": 20000, "c20:blocks-checked": 10000,
                         "c20:true-path": 500, "c20:predicted-path": 500, "c20:ascii": 1200, "c20:oblong": 100,
                         **{f"c20:ul:{u}": 100 for u in (3, 4, 5, 9, 14, 19, 31)}, "c20:int8-paths": 300, "c20:values-contain-minus-one": 200, "c20:negative-values": 50, "c20:constant-values": 50,
-                        "c20:replots": 900, "c20:drawn-images": 2000, "c20:replot-plain-after-values": 300, "c20:detour-solution": 30}}
+                        "c20:replots": 900, "c20:rejected-values-call": 200, "c20:drawn-images": 2000, "c20:replot-plain-after-values": 300, "c20:detour-solution": 30}}
 THRESHOLDS["thorough"] = dict(THRESHOLDS["quick"])
 ANCHORS = ["maze_dataset.plotting.plot_maze:MazePlot._lattice_maze_to_img", "maze_dataset.plotting.plot_maze:MazePlot._rowcol_to_coord",
            "maze_dataset.plotting.plot_maze:MazePlot._plot_path", "maze_dataset.plotting.plot_maze:MazePlot.to_ascii",
            "maze_dataset.plotting.plot_maze:MazePlot.__init__"]
 AMBIENT = dict(generators=False, solver=True, solved=False)
+
+
+class _SkipCase(Exception):
+    pass
 
 
 def is_wall(v, with_values):
@@ -212,6 +216,18 @@ def run(ctx):
                 ascii_plot = mp.to_ascii()
                 if values is not None:
                     mp.add_node_values(values.copy(), color_map=["Blues", "viridis"][j % 2])
+                if j % 4 == 2:
+                    # a call the library rejects (cell values of the wrong shape) must leave the plot as it was
+                    bad = np.full((R + 1 + j % 2, C + 2), 7.5)
+                    try:
+                        mp.add_node_values(bad)
+                        ctx.tally("c20:wrong-shape-values-accepted(not judged)")
+                        values = None if True else values  # cannot judge the image of an accepted wrong-shape map
+                        raise _SkipCase()
+                    except _SkipCase:
+                        raise
+                    except Exception:  # noqa: BLE001
+                        ctx.tally("c20:rejected-values-call")
                 if extra_true is not None:
                     if j % 4 == 0:
                         mp.add_true_path(np.array(extra_true, dtype=pdt))
@@ -222,6 +238,9 @@ def run(ctx):
                 mp.plot()
                 fig = mp.fig
                 ax = mp.ax
+        except _SkipCase:
+            plt.close("all")
+            continue
         except Exception as ex:  # noqa: BLE001
             import traceback
             ctx.violation(f"C20/plot/exception/{type(ex).__name__}", traceback.format_exc()[-1500:], case)
